@@ -85,6 +85,9 @@ func init() {
 func (c *context) RecvMsg() (*protocol.Message, error) {
 	s := c.s
 
+	// The deadline is armed once: a queue resize while we wait must not
+	// start it over.
+	tq := nilQ
 	for {
 		s.Lock()
 		if c.closed {
@@ -92,7 +95,6 @@ func (c *context) RecvMsg() (*protocol.Message, error) {
 			return nil, protocol.ErrClosed
 		}
 		cq := c.closeQ
-		tq := nilQ
 		rq := s.recvQ
 		zq := s.sizeQ
 		expTime := c.recvExpire
@@ -100,7 +102,7 @@ func (c *context) RecvMsg() (*protocol.Message, error) {
 		c.recvPipe = nil
 		s.Unlock()
 
-		if expTime > 0 {
+		if expTime > 0 && tq == nil {
 			tq = time.After(expTime)
 		}
 
